@@ -795,12 +795,15 @@ pub fn process<I: BufRead, O: Write>(
                             }
                         }
                         _ => {
-                            return Err(Error::Syntax {
-                                filename: filename.clone(),
-                                included_in: included_in.clone(),
-                                line,
-                                msg: "Unrecognised preprocessor directive".to_string(),
-                            });
+                            // (in a skipped region an unknown directive is skipped like any other line)
+                            if state == State::Active {
+                                return Err(Error::Syntax {
+                                    filename: filename.clone(),
+                                    included_in: included_in.clone(),
+                                    line,
+                                    msg: "Unrecognised preprocessor directive".to_string(),
+                                });
+                            }
                         }
                     }
                 } else if state == State::Active {
